@@ -467,6 +467,12 @@ def handleEnvObs (h : EHist) (toks : List String) : EHist × List String × List
                   | .trading on => some (.trading on)
                   | .resetVol => some .resetVol
                   | .reload => some .reload
+                -- a trading switch (market-wide or addressed to this book) sets THIS book's own flag (read from its snapshot state)
+                match bop, (ln.hidden[a]?).join with
+                | some (.trading on), some hs =>
+                  if (splitC hs "/").length == 3 && (splitC hs "/")[1]? != some (if on then "1" else "0") then
+                    aud := aud ++ [s!"A C13 {h.id} {h.opIdx} flag_in_snapshot_not_switched {tail}"]
+                | _, _ => pure ()
                 match bop with
                 | none =>
                   if nb != pb then aud := aud ++ [s!"A C14 {h.id} {h.opIdx} other_asset_changed {tail}"]
